@@ -2179,3 +2179,194 @@ func existenceGuard(p *Program, g *ssa.Function, b *ssa.BasicBlock) (string, boo
 	}
 	return "", false
 }
+
+// ---------------------------------------------------------------------------
+// TRUNCATED-KEY-CONFIRMED (R10i). The pointer forest indexes its leaves by a
+// truncated hash (a byte array of the package shorter than a full hash). A
+// hit under the truncated key of a caller-supplied hash says only that the
+// prefixes agree: before the found node is used to answer a hash -> position
+// look-up, its full hash has to be compared with the hash asked for.
+// Otherwise every never-added hash that shares the prefix of a live leaf is
+// reported as found.
+
+func truncatedKey(p *Program, t types.Type) bool {
+	nt := namedOf(t)
+	if nt == nil || nt.Obj().Pkg() != p.Types {
+		return false
+	}
+	arr, ok := nt.Underlying().(*types.Array)
+	if !ok || arr.Len() >= 32 {
+		return false
+	}
+	bt, ok := arr.Elem().Underlying().(*types.Basic)
+	return ok && bt.Kind() == types.Byte
+}
+
+func checkTruncatedLookupConfirmed(p *Program, r *Report, rule string) {
+	isHashish := func(t types.Type) bool {
+		if isHashType(t) {
+			return true
+		}
+		if sl, ok := t.Underlying().(*types.Slice); ok {
+			return isHashType(sl.Elem())
+		}
+		return false
+	}
+	var entries []*ssa.Function
+	for _, f := range p.Funcs {
+		if f.Parent() != nil || f.Object() == nil || !f.Object().Exported() || f.Signature.Recv() == nil || f.Blocks == nil || !p.owns(f) {
+			continue
+		}
+		hasHash, hasPos := false, false
+		for i := 0; i < f.Signature.Params().Len(); i++ {
+			if isHashish(f.Signature.Params().At(i).Type()) {
+				hasHash = true
+			}
+		}
+		onlyPos := f.Signature.Results().Len() > 0
+		for i := 0; i < f.Signature.Results().Len(); i++ {
+			t := f.Signature.Results().At(i).Type()
+			switch {
+			case isUint64(t):
+				hasPos = true
+			case func() bool { sl, ok := t.Underlying().(*types.Slice); return ok && isUint64(sl.Elem()) }():
+				hasPos = true
+			case types.Identical(t, types.Typ[types.Bool]):
+			default:
+				onlyPos = false
+			}
+		}
+		if hasHash && hasPos && onlyPos && f.Signature.Params().Len() == 1 {
+			entries = append(entries, f)
+		}
+	}
+	r.Floor(rule, "hash -> position look-up entries", len(entries), 3)
+	n := 0
+	for _, e := range sortedFuncSlice(p, entries) {
+		ename := p.FuncName(e)
+		reach := p.StaticReach(e)
+		reach[e] = true
+		sites, full := 0, 0
+		for _, g := range sortedFuncs(p, reach) {
+			if g.Blocks == nil || !p.owns(g) {
+				continue
+			}
+			for _, b := range g.Blocks {
+				for _, in := range b.Instrs {
+					if kind, method, _ := storeCall(p, in); kind == "index" && method == "Get" {
+						full++
+						continue
+					}
+					lk, ok := in.(*ssa.Lookup)
+					if !ok {
+						continue
+					}
+					mt, ok := lk.X.Type().Underlying().(*types.Map)
+					if !ok {
+						continue
+					}
+					if !truncatedKey(p, mt.Key()) {
+						if isHashType(mt.Key()) {
+							full++
+						}
+						continue
+					}
+					fromParam := func(v ssa.Value) bool {
+						return flowsFrom(v, func(x ssa.Value) bool {
+							par, ok := x.(*ssa.Parameter)
+							return ok && isHashish(par.Type())
+						}, 0, map[ssa.Value]bool{})
+					}
+					if !fromParam(lk.Index) {
+						continue
+					}
+					sites++
+					n++
+					key := fmt.Sprintf("%s/%s/truncated-lookup#%d", ename, p.FuncName(g), sites)
+					// the found node
+					var node ssa.Value = lk
+					if lk.CommaOk {
+						node = nil
+						for _, ref := range *lk.Referrers() {
+							if ex, ok := ref.(*ssa.Extract); ok && ex.Index == 0 {
+								node = ex
+							}
+						}
+					}
+					if node == nil || node.Referrers() == nil {
+						r.Discharge(rule, key, posOf(p, in), "only membership under the truncated key is used", false)
+						continue
+					}
+					fromNode := func(v ssa.Value) bool {
+						return flowsFrom(v, func(x ssa.Value) bool { return x == node }, 0, map[ssa.Value]bool{})
+					}
+					confirmed := func(blk *ssa.BasicBlock) bool {
+						for _, gd := range guardsAt(blk) {
+							bo, ok := gd.Cond.(*ssa.BinOp)
+							if !ok || !isHashType(bo.X.Type()) {
+								continue
+							}
+							if !((bo.Op == token.EQL && gd.Truth) || (bo.Op == token.NEQ && !gd.Truth)) {
+								continue
+							}
+							if (fromNode(bo.X) && fromParam(bo.Y) && !fromNode(bo.Y)) || (fromNode(bo.Y) && fromParam(bo.X) && !fromNode(bo.X)) {
+								return true
+							}
+						}
+						return false
+					}
+					var bad ssa.Instruction
+					for _, ref := range *node.Referrers() {
+						// reads of the node's own hash feed the confirmation itself
+						if fa, ok := ref.(*ssa.FieldAddr); ok {
+							onlyCmp := true
+							for _, r2 := range *fa.Referrers() {
+								u, ok := r2.(*ssa.UnOp)
+								if !ok {
+									onlyCmp = false
+									break
+								}
+								for _, r3 := range *u.Referrers() {
+									if bo, ok := r3.(*ssa.BinOp); !ok || (bo.Op != token.EQL && bo.Op != token.NEQ) {
+										onlyCmp = false
+									}
+								}
+							}
+							if onlyCmp {
+								continue
+							}
+						}
+						if _, ok := ref.(*ssa.DebugRef); ok {
+							continue
+						}
+						if !confirmed(ref.Block()) && bad == nil {
+							bad = ref
+						}
+					}
+					if bad != nil {
+						r.Violate(rule, key, posOf(p, bad), "the node found under the truncated key of a caller-supplied hash is used without comparing its full hash with the hash asked for: a never-added hash sharing the prefix of a live leaf is reported as found", "in "+p.FuncName(g)+", reached from "+ename)
+					} else {
+						r.Discharge(rule, key, posOf(p, in), "every use of the found node is behind an equality of its full hash with the hash asked for", true)
+					}
+				}
+			}
+		}
+		if sites == 0 {
+			n++
+			key := ename + "/full-key"
+			if full > 0 {
+				r.Discharge(rule, key, p.Pos(e.Pos()), fmt.Sprintf("the look-up uses full-hash keys only (%d look-ups)", full), true)
+			} else {
+				r.Undecided(rule, key, p.Pos(e.Pos()), "cannot see how this look-up reaches a leaf index")
+			}
+		}
+	}
+}
+
+func sortedFuncSlice(p *Program, fs []*ssa.Function) []*ssa.Function {
+	m := map[*ssa.Function]bool{}
+	for _, f := range fs {
+		m[f] = true
+	}
+	return sortedFuncs(p, m)
+}
